@@ -14,6 +14,7 @@ from petl.compat import pickle, next, text_type
 import petl.config as config
 from petl.comparison import comparable_itemgetter
 from petl.util.base import Table, asindices
+from petl.transform.basics import stack
 
 
 logger = logging.getLogger(__name__)
@@ -470,9 +471,11 @@ class MergeSortView(Table):
         if presorted:
             self.tables = tables
         else:
-            self.tables = [sort(t, key=key, reverse=reverse,
-                                buffersize=buffersize, tempdir=tempdir,
-                                cache=cache)
+            # square up the inputs before sorting, so that short rows are
+            # sorted under the key they have once filled with missing
+            self.tables = [sort(stack(t, missing=missing), key=key,
+                                reverse=reverse, buffersize=buffersize,
+                                tempdir=tempdir, cache=cache)
                            for t in tables]
         self.missing = missing
         self.header = header
